@@ -4,6 +4,7 @@ Theorems about `Model/Fiber.lean` at ℝ (the driver runs the same definitions a
 Constants (4.343, 1e-12, 1e-24) are translated from the source into `Gen/FiberConst.lean`.
 -/
 import OptiVerif.Lemmas.Fiber
+import OptiVerif.Lemmas.FourierLinear
 
 namespace OptiVerif.Props.C07
 open OptiVerif OptiVerif.Fourier OptiVerif.Fiber
@@ -184,6 +185,38 @@ theorem fiber_container (wConv kappa fs alpha b2 b3 L : ℝ) (p : Payload ℝ) :
     (fiberLinPayload wConv kappa fs alpha b2 b3 L p).sig.map List.length = p.sig.map List.length := by
   refine ⟨rfl, ?_⟩
   simp [fiberLinPayload, List.map_map, Function.comp_def, fiber_length]
+
+/-! ### linear in the field: superposition, and an unlit polarisation stays exactly dark -/
+
+/-- DM of a sum of two fields of equal length is the sum of the DM outputs -/
+theorem dm_superposition (dConv fs D : ℝ) (xs ys : List (Cx ℝ)) (h : xs.length = ys.length) :
+    dmRow dConv fs D (addRows xs ys) = addRows (dmRow dConv fs D xs) (dmRow dConv fs D ys) := by
+  unfold dmRow
+  rw [length_addRows xs ys h, ← h]
+  exact applyH_add _ xs ys h (by simp [dmH, length_wAxis])
+
+/-- the linear fibre obeys superposition as well -/
+theorem fiber_superposition (wConv kappa fs alpha b2 b3 L : ℝ) (xs ys : List (Cx ℝ)) (h : xs.length = ys.length) :
+    fiberLinRow wConv kappa fs alpha b2 b3 L (addRows xs ys)
+      = addRows (fiberLinRow wConv kappa fs alpha b2 b3 L xs) (fiberLinRow wConv kappa fs alpha b2 b3 L ys) := by
+  unfold fiberLinRow
+  rw [length_addRows xs ys h, ← h]
+  exact applyH_add _ xs ys h (by simp [fiberH, length_wAxis])
+
+/-- an unlit polarisation (identically zero row) leaves DM identically zero: no NaN, no leakage -/
+theorem dm_dark_row (dConv fs D : ℝ) (n : ℕ) : dmRow dConv fs D (zeroRow n) = zeroRow n := by
+  unfold dmRow
+  have hl : (zeroRow n).length = n := by simp [zeroRow]
+  rw [hl]
+  exact applyH_zeroRow _ n (by simp [dmH, length_wAxis])
+
+/-- and leaves the linear fibre identically zero -/
+theorem fiber_dark_row (wConv kappa fs alpha b2 b3 L : ℝ) (n : ℕ) :
+    fiberLinRow wConv kappa fs alpha b2 b3 L (zeroRow n) = zeroRow n := by
+  unfold fiberLinRow
+  have hl : (zeroRow n).length = n := by simp [zeroRow]
+  rw [hl]
+  exact applyH_zeroRow _ n (by simp [fiberH, length_wAxis])
 
 /-! ### non-vacuity -/
 example : ∃ xs : List (Cx ℝ), xs.length = 3 ∧ sumSq (dmRow 1 1 5 xs) = sumSq xs :=
